@@ -7,7 +7,10 @@ package crdt
 // an entry is ACTIVE exactly when it has been added and its latest add is not older than its latest remove
 // (add != 0 && add >= del, add-biased on ties) - the sentence of C04.
 
-import vs "github.com/emitter-io/emitter/internal/verifspec"
+import (
+	vs "github.com/emitter-io/emitter/internal/verifspec"
+	"github.com/tidwall/buntdb"
+)
 
 func specBE64(v []byte, i int) int64 {
 	return int64(uint64(v[i])<<56 | uint64(v[i+1])<<48 | uint64(v[i+2])<<40 | uint64(v[i+3])<<32 |
@@ -219,4 +222,56 @@ func standinMerge11(k1, k2 string, a1, d1, a2, d2 int64) bool {
 	delta := vs.Has(r.data, k2) == (sa < a2 || sd < d2) &&
 		(!vs.Has(r.data, k2) || (specAdd(r.data, k2) == specDeltaT(sa, a2) && specDel(r.data, k2) == specDeltaT(sd, d2)))
 	return join && delta
+}
+
+// ---------------------------------------------------------------------------------------------------------
+// Durable (the ban list, property C14): a buntdb-backed set with a 60-second read cache in front of it.
+// Coherence invariant C: whatever the cache holds for a key is what the database holds. Readers (fetch, Has, Get)
+// trust the cache, so EVERY writer must invalidate or refresh the entry it writes - otherwise an acknowledged ban
+// (or unban) is not seen for up to a minute. buntdb and freecache are outside the verified code: their calls are
+// recorded events.
+
+func pre_Durable_store(s *Durable, t Value) bool { return s != nil && s.cache != nil && len(t) >= 16 }
+
+//@ verify (*Durable).store pre=pre_Durable_store post=post_Durable_store_db,post_Durable_store_cache props=C14
+func post_Durable_store_db(s *Durable, key string) bool {
+	// exactly one database write, of this key
+	w := vs.TraceFind("buntdb.Tx).Set")
+	return w >= 0 && vs.TraceCount("buntdb.Tx).Set") == 1 && vs.TraceArg[string](w, 1) == key
+}
+func post_Durable_store_cache(s *Durable, key string) bool {
+	// the cached copy of this key is dropped (or replaced) by the writer: invariant C
+	return vs.TraceCount("freecache.Cache).Del")+vs.TraceCount("freecache.Cache).Set") >= 1
+}
+
+// Has is fetch().IsAdded(): with invariant C, the latest acknowledged Add/Del/Merge decides
+//@ verify (*Durable).Has pre=pre_Durable post=post_Durable_Has props=C14
+func pre_Durable(s *Durable) bool { return s != nil && s.cache != nil && s.db != nil }
+func post_Durable_Has(s *Durable, res0 bool) bool {
+	// a cache hit is believed without asking the database
+	g := vs.TraceFind("freecache.Cache).Get")
+	return g >= 0 && (vs.TraceRet[error](g, 1) != nil || vs.TraceCount("buntdb.DB).Begin") == 0)
+}
+
+// assumed about the storage engines (outside the verified code): an open database starts a read transaction; what
+// the cache or the database hold for a key is something store wrote, i.e. a value with its 16-byte header
+//@ assume (*github.com/tidwall/buntdb.DB).Begin iface post=post_buntdb_Begin
+func post_buntdb_Begin(res0 *buntdb.Tx, res1 error) bool { return res1 == nil && res0 != nil }
+
+//@ assume (*github.com/coocood/freecache.Cache).Get iface post=post_cache_Get
+func post_cache_Get(res0 []byte, res1 error) bool { return res1 != nil || len(res0) >= 16 }
+
+//@ assume (*github.com/tidwall/buntdb.Tx).Get iface post=post_tx_Get
+func post_tx_Get(res0 string, res1 error) bool { return res1 != nil || len(res0) >= 16 }
+
+// the zero-copy conversions of kelindar/binary (unsafe casts): same length, same bytes. Modelled as copies - the
+// aliasing between a string and the bytes it was cast from is dropped (DESIGN section 2.7).
+//@ assume github.com/kelindar/binary.ToBytes iface post=post_binary_ToBytes
+func post_binary_ToBytes(v string, res0 []byte) bool {
+	return len(res0) == len(v) && vs.Forall(0, len(v), func(i int) bool { return res0[i] == v[i] })
+}
+
+//@ assume github.com/kelindar/binary.ToString iface post=post_binary_ToString
+func post_binary_ToString(b *[]byte, res0 string) bool {
+	return b != nil && len(res0) == len(*b) && vs.Forall(0, len(res0), func(i int) bool { return res0[i] == (*b)[i] })
 }
